@@ -90,6 +90,12 @@ CHECKS = {
   text='For every statically constructible context of the enumeration used by C01 (all float and fixed families, every rounding mode, overflow mode, NaN/infinity option and substitute value; 640 sampled per seed in quick, all in thorough) a module with the quantizers `with C: y = round(x)`, `with C: return round(x)` and `with C: y = cast(x)` is decorated by the real @fp.fpy. Each rewrite alone (unfold_special, unfold_neg_zero, unfold_overflow with and without early_check, float_to_fixed, rescale_fixed, simplify), every prefix of length >= 2 of the documented chain (both overflow variants) and two random orders of three rewrites are applied; original and lowered programs are run on the breakpoint operands of the format (every representable neighbourhood boundary: midpoints, one-ulp-off midpoints, subnormal range, emin, the overflow threshold and the first value rounding past it, the clamp bounds, huge and tiny magnitudes, +-0, +-inf, NaN) and compared structurally including the sign of zero. A refusal (TransformDeclined) is acceptable, any other exception of a rewrite is a violation. elim_round / insert_round (+ simplify, + each other) are applied to four exact-arithmetic programs monomorphized at 63 (argument format, caller context) pairs and compared on 40 (300) operand triples drawn from every member of the argument format.',
   ref='DESIGN.md 2/C10',
   note='Trusted: the original quantizer (itself under the independent rounding oracle of C01). Operands on which the original raises are counted, not compared. Inconclusive when fewer than 25% of the lowered variants differ textually from the original. Known findings F32 (elim_round hoisting under a context without -0) and F33 (ValueError from format inference) are reported as KNOWN-FINDING.'),
+ 'C13': dict(
+  technique='online trace checker: a tracing subclass of the real bytecode compiler (vf/monitors/trace.py, nothing edited in the repository) reports every evaluated expression and every binding of generated programs; each event is checked against the facts of the real TypeInfer, ArraySizeInfer, ValueClassInfer, PartialEval, DefineUse and Alias analyses of the same FuncDef',
+  category='exploration',
+  text='1600 (30000) generated programs from five grammar profiles (branches and one-armed ifs, for / while loops, nested with-blocks incl. computed contexts, constant expressions, copies and redefinitions, list construction / aliasing / slicing / indexed assignment / rebinding of local lists in branches and loops, nested lists, tuples and destructuring, comprehensions, zip / enumerate, helper calls that mutate list arguments) are run on 8 (12) argument tuples incl. specials, lists of every length and nested lists, under 3 caller contexts. For every evaluated expression: its value has the shape of TypeInfer.by_expr (bool / number / list / tuple / context, static list length); a list has the concrete ArraySizeInfer size and all lists sharing a size variable have one length within a run; the class of a number (NaN / Inf / zero / finite) is among ValueClassInfer.by_expr; the value equals the constant PartialEval.by_expr reports. For every variable read: the assignment / indexed assignment / loop header / with / argument that last bound the name is among the assignments its DefineUse definition stands for (phi operands expanded). At every binding of a list: any other name bound to the identical list object must be may_alias with it; a name bound to an element list of another must share that one\'s depth-1 region. Facts are checked up to a raise as well.',
+  ref='DESIGN.md 0.3, 2/C13',
+  note='Trusted: the tracing hooks return their argument unchanged (C04 checks the untraced interpreter separately). Per-analysis counters of checked and of distinct constraining facts are in the evidence; the run is inconclusive if any analysis contributed fewer than 50 constraining facts. Escape / purity / liveness are exercised only through their consumers (C07, C11).'),
  'C15': dict(
   technique='bounded enumeration of program skeletons compiled by the real front end; accepted ones executed on every combination of branch outcomes and trip counts; the Python runtime\'s unbound-variable detection and a definite-assignment judgement as oracles',
   category='exploration',
